@@ -767,3 +767,86 @@ Section CtorTable.
       f_equal. fold ip. unfold ip. rewrite rg_ctor_base by assumption. reflexivity.
   Qed.
 End CtorTable.
+
+(** ** the whole map: constructor + apply of the generated definitions = the hand-written model, cell by cell *)
+Section WholeMap.
+  Variables (a : rg_args) (P : rot_par) (ax ay : Z -> Qc) (H0 : Z -> Z * Qc) (D : Z -> Qc).
+  Hypothesis Hv : valid_it (ra_it a).
+  Hypothesis Hsz : 0 < ra_xs a /\ 0 < ra_ys a /\ ra_xs a * ra_ys a * (ra_it a * ra_it a) <= 2 ^ 32.
+  Hypothesis Hdef : forall q p, 0 <= q < ra_xs a -> 0 <= p < ra_ys a -> rot_defined P (ax q) (ay p) = true.
+  Hypothesis Hok : rg_throws a = false.
+
+  Let xs := ra_xs a. Let ys := ra_ys a. Let it := ra_it a.
+  Let row (q p : Z) := rot_entries xs ys it P (ax q) (ay p).
+
+  Lemma rg_sizes32 : xs * ys <= 2 ^ 32.
+  Proof.
+    unfold xs, ys. assert (1 <= ra_it a * ra_it a) by (destruct Hv as [H|[H|[H|H]]]; rewrite H; lia).
+    destruct Hsz as [A [B C]]. assert (0 < ra_xs a * ra_ys a) by (apply Z.mul_pos_pos; lia).
+    assert (ra_xs a * ra_ys a * 1 <= ra_xs a * ra_ys a * (ra_it a * ra_it a)) by (apply Z.mul_le_mono_nonneg_l; lia). lia.
+  Qed.
+
+  (** precomputed table (rotmapsize = xs*ys): cell i of data_out gets the (clamped) interpolation over the row of grid point
+      (i / ys, i mod ys) - the row the constructor wrote for that very point *)
+  Theorem rg_table_map_is_model : ra_rotmapsize a = xs * ys ->
+    rg_apply_writes a P ax ay (rg_ctor_hinfo a P ax ay H0) D =
+    map (fun i => (i, rot_apply_cell_clamped it (ra_clamp a) (row (i / ys) (i mod ys)) D)) (zrange (xs * ys)).
+  Proof.
+    intros Hr. destruct (rg_members_ok a Hv) as [Exs [Eys [Eit [Eip [Erms Ecl]]]]].
+    assert (Hip : 0 < it * it) by (unfold it; destruct Hv as [H|[H|[H|H]]]; rewrite H; lia).
+    assert (Hne : ra_rotmapsize a <> 0).
+    { rewrite Hr. unfold xs, ys. assert (0 < ra_xs a * ra_ys a) by (apply Z.mul_pos_pos; lia). lia. }
+    unfold rg_apply_writes. rewrite Exs, Eys, Eit, Eip, Erms, Ecl.
+    unfold gen_rot_apply_onthefly. destruct (Z.eqb_spec (ra_rotmapsize a) 0) as [E|_]; [contradiction|].
+    unfold gen_rot_table_cells. rewrite Hr. fold xs ys it.
+    apply map_ext_in. intros i Hi. apply rg_in_zrange in Hi.
+    assert (Hq : 0 <= i / ys < xs).
+    { split; [apply Z.div_pos; unfold ys; lia|apply Z.div_lt_upper_bound; unfold ys; lia]. }
+    assert (Hp : 0 <= i mod ys < ys) by (apply Z.mod_pos_bound; unfold ys; lia).
+    unfold row. apply rg_table_cell_is_model.
+    - exact Hv.
+    - exact (rot_entries_length xs ys it P (ax (i / ys)) (ay (i mod ys)) Hv).
+    - lia.
+    - apply Z.le_trans with (xs * ys * (it * it)); [apply Z.mul_le_mono_nonneg_r; lia|unfold xs, ys, it; lia].
+    - intros Hc. apply (rg_clamp_only_cubic_table a Hok Hc).
+    - intros j Hj.
+      assert (Hin : 0 <= i * (it * it) + j < ra_xs a * ra_ys a * (ra_it a * ra_it a)).
+      { fold xs ys it. assert ((i + 1) * (it * it) <= xs * ys * (it * it)) by (apply Z.mul_le_mono_nonneg_r; lia).
+        assert (0 <= i * (it * it)) by (apply Z.mul_nonneg_nonneg; lia). lia. }
+      rewrite (rg_ctor_table a P ax ay Hv) by (try exact Hin; try exact Hne; unfold xs, ys, it in *; lia).
+      unfold rg_table. rewrite Exs, Eys, Eit, Eip. fold xs ys it.
+      replace ((i * (it * it) + j) / (it * it)) with i
+        by (rewrite Z.div_add_l by lia; rewrite Z.div_small by lia; lia).
+      replace ((i * (it * it) + j) mod (it * it)) with j
+        by (rewrite Z.add_comm, Z.mod_add by lia; symmetry; apply Z.mod_small; lia).
+      apply (rg_generated_is_model xs ys it P ax ay (i / ys) (i mod ys) Hv).
+      + pose proof rg_sizes32. unfold xs, ys in *. lia.
+      + apply Hdef; assumption.
+      + exact Hj.
+  Qed.
+
+  (** on-the-fly map (rotmapsize = 0): the cells in the order of the two loops *)
+  Theorem rg_fly_map_is_model H : ra_rotmapsize a = 0 ->
+    rg_apply_writes a P ax ay H D =
+    map (fun qp => (fst qp * ys + snd qp, rot_apply_cell (row (fst qp) (snd qp)) D))
+        (flat_map (fun q => map (fun p => (q, p)) (zrange ys)) (zrange xs)).
+  Proof.
+    intros Hr. destruct (rg_members_ok a Hv) as [Exs [Eys [Eit [Eip [Erms Ecl]]]]].
+    assert (Hip : 0 < it * it) by (unfold it; destruct Hv as [H1|[H1|[H1|H1]]]; rewrite H1; lia).
+    unfold rg_apply_writes. rewrite Exs, Eys, Eit, Eip, Erms, Ecl, Hr. cbn [gen_rot_apply_onthefly Z.eqb].
+    unfold gen_rot_fly_cells. fold xs ys it.
+    apply map_ext_in. intros [q p] Hqp. cbn [fst snd].
+    apply in_flat_map in Hqp. destruct Hqp as [q' [Hq Hqp]]. apply in_map_iff in Hqp. destruct Hqp as [p' [E Hp]].
+    injection E as E1 E2. subst q' p'. apply rg_in_zrange in Hq, Hp.
+    pose proof rg_sizes32 as S32.
+    unfold row. apply rg_fly_cell_is_model.
+    - exact (rot_entries_length xs ys it P (ax q) (ay p) Hv).
+    - lia.
+    - assert (q * ys <= (xs - 1) * ys) by (apply Z.mul_le_mono_nonneg_r; lia).
+      assert (0 <= q * ys) by (apply Z.mul_nonneg_nonneg; lia). lia.
+    - intros old j Hj. apply (rg_generated_is_model xs ys it P ax ay q p Hv).
+      + unfold xs, ys in *. lia.
+      + apply Hdef; assumption.
+      + exact Hj.
+  Qed.
+End WholeMap.
